@@ -64,6 +64,11 @@ pub struct ReplayFile {
     pub minimisation: String,
     /// None: the document could not be regenerated outside the dying worker; replay by seed
     pub doc: Option<Doc>,
+    /// worker requests ("G <seed>" = generated scenario of that seed, "X <n>" = directed scenario
+    /// n) that must run in the same process before `doc`: only present when the violation
+    /// depends on state physis keeps between calls
+    #[serde(default)]
+    pub history: Vec<String>,
     pub trace: Vec<String>,
     pub log_hash: u64,
     pub sched_hash: u64,
@@ -169,10 +174,9 @@ pub fn run_check(prop: &str, tier: Tier, seed: u64, runs: Option<u64>, workers: 
         let per_sig_budget = Duration::from_secs(if tier == Tier::Quick { 25 } else { 120 });
         for (k, (sig, s, msg, n)) in new_sigs.iter().enumerate() {
             // find the document: the failing run handed it back, or regenerate it
-            let doc = agg
-                .violations
-                .iter()
-                .find(|(_, v, d)| v.sig == *sig && d.is_some())
+            let with_doc = agg.violations.iter().find(|(_, v, d)| v.sig == *sig && d.is_some());
+            let doc_seed = with_doc.map(|(ds, _, _)| *ds);
+            let doc = with_doc
                 .and_then(|(_, _, d)| serde_json::from_str::<Doc>(d.as_ref().unwrap()).ok())
                 .or_else(|| doc_for(&mut w, prop, *s, &directed));
             let Some(doc) = doc else {
@@ -186,6 +190,7 @@ pub fn run_check(prop: &str, tier: Tier, seed: u64, runs: Option<u64>, workers: 
                     original_seed: *s,
                     minimisation: "not minimised: the scenario document could not be regenerated".into(),
                     doc: None,
+                    history: vec![],
                     trace: vec![],
                     log_hash: 0,
                     sched_hash: 0,
@@ -211,7 +216,65 @@ pub fn run_check(prop: &str, tier: Tier, seed: u64, runs: Option<u64>, workers: 
             let mut fresh = Worker::spawn(prop, tier);
             let rr = fresh.run_doc(&min_doc, true);
             drop(fresh);
-            let reproduced = rr.violation.as_ref().map(|v| v.sig == *sig).unwrap_or(false);
+            let mut reproduced = rr.violation.as_ref().map(|v| v.sig == *sig).unwrap_or(false);
+            let mut rr = rr;
+            let mut min_doc = min_doc;
+            let mut note = note;
+            let mut history: Vec<String> = vec![];
+            if !reproduced {
+                // The scenario alone is innocent in a fresh process: the failure may depend on
+                // state the library kept from earlier scenarios in the same worker. Replay the
+                // worker's history in front of the original document and shrink the history.
+                if let Some(h) = doc_seed.and_then(|ds| agg.histories.get(&ds)) {
+                    let with_history = |hist: &[String], d: &Doc, trace: bool| -> crate::harness::RunResult {
+                        let mut w = Worker::spawn(prop, tier);
+                        for line in hist {
+                            let _ = w.request(line, 0);
+                        }
+                        w.run_doc(d, trace)
+                    };
+                    let fails = |hist: &[String]| with_history(hist, &doc, false).violation.as_ref().map(|v| v.sig == *sig).unwrap_or(false);
+                    if fails(h) {
+                        let t0 = Instant::now();
+                        let mut cur: Vec<String> = h.clone();
+                        // shortest failing suffix by halving, then single removals while time allows
+                        loop {
+                            let half = cur.len() / 2;
+                            if half == 0 || t0.elapsed() > per_sig_budget {
+                                break;
+                            }
+                            if fails(&cur[half..]) {
+                                cur = cur[half..].to_vec();
+                            } else if fails(&cur[..half]) {
+                                cur = cur[..half].to_vec();
+                            } else {
+                                break;
+                            }
+                        }
+                        let mut i = 0;
+                        while i < cur.len() && cur.len() <= 64 && t0.elapsed() < per_sig_budget * 2 {
+                            let mut c = cur.clone();
+                            c.remove(i);
+                            if fails(&c) {
+                                cur = c;
+                            } else {
+                                i += 1;
+                            }
+                        }
+                        rr = with_history(&cur, &doc, true);
+                        reproduced = rr.violation.as_ref().map(|v| v.sig == *sig).unwrap_or(false);
+                        if reproduced {
+                            note = format!(
+                                "the scenario fails only after {} earlier scenario(s) in the same process (library state kept between calls); history shrunk from {} requests, document not minimised",
+                                cur.len(),
+                                h.len()
+                            );
+                            min_doc = doc.clone();
+                            history = cur;
+                        }
+                    }
+                }
+            }
             if !reproduced {
                 eprintln!(
                     "HARNESS: minimised scenario for '{}' did not reproduce in a fresh process (got {:?})",
@@ -230,6 +293,7 @@ pub fn run_check(prop: &str, tier: Tier, seed: u64, runs: Option<u64>, workers: 
                 original_seed: *s,
                 minimisation: note,
                 doc: Some(min_doc),
+                history,
                 trace: rr.trace.clone(),
                 log_hash: rr.log_hash,
                 sched_hash: rr.sched_hash,
@@ -399,6 +463,12 @@ pub fn replay(path: &str) -> i32 {
         }
     };
     let mut w = Worker::spawn(&rf.property, rf.tier);
+    for line in &rf.history {
+        let _ = w.request(line, 0);
+    }
+    if !rf.history.is_empty() {
+        println!("replay: ran {} earlier scenario(s) in the same process first", rf.history.len());
+    }
     let r = match &rf.doc {
         Some(d) => w.run_doc(d, true),
         None => w.request(&format!("TG {}", rf.original_seed), rf.original_seed),
